@@ -175,7 +175,7 @@ Definition run_pooled (c : case) : bytes :=
   | _, _ => str_badcase
   end.
 
-Definition run_case_C06 (c : case) : bytes :=
+Definition run_case_C06_mem (c : case) : bytes :=
   match c_kind c with
   | 7 => run_pooled c
   | _ => run_case_C06_base c
